@@ -294,14 +294,20 @@ def inputs_from_env(r, env, base=None):
     return vals
 
 
-def real_eval(case: Case, vals, linearize=True, prob_r=None):
-    """Fresh real problem at `vals`: outputs and analytic partials (check_partials J_fwd) + central FD."""
+def real_eval(case: Case, vals, linearize=True, prob_r=None, history=None):
+    """Fresh real problem at `vals`: outputs and analytic partials (check_partials J_fwd) + central FD.
+    history: list of earlier points at which the model is run and linearised first (same live Problem)."""
     r = prob_r or CompRunner(case.factory(dict(case.cfg)), prerun=False)
     prob = r.prob
     if r.implicit:
         return real_eval_implicit(r, vals, linearize)
     with warnings.catch_warnings(), np.errstate(all="ignore"):
         warnings.simplefilter("ignore")
+        for hv in history or []:
+            for n in r.in_names:
+                prob.set_val(r.path + "." + n, hv[n])
+            prob.run_model()
+            prob.model.run_linearize()
         for n in r.in_names:
             prob.set_val(r.path + "." + n, vals[n])
         if r.implicit:
@@ -316,16 +322,40 @@ def real_eval(case: Case, vals, linearize=True, prob_r=None):
         J = None
         if linearize:
             J = {}
-            for h in (1e-5, 5e-6):
-                data = prob.check_partials(out_stream=None, method="fd", form="central", step=h, step_calc="abs")
-                d = data[r.path]
-                for key, v in d.items():
-                    e = J.setdefault(key, {})
-                    e["J_fwd"] = np.array(v["J_fwd"])
-                    e.setdefault("fd", []).append(np.array(v["J_fd"]))
+            data = prob.check_partials(out_stream=None, method="fd", form="central", step=1e-6, step_calc="abs")
+            d = data[r.path]
+            for key, v in d.items():
+                J.setdefault(key, {})["J_fwd"] = np.array(v["J_fwd"])
+            # reference: own real-valued central differences (Richardson) through run_model
+            def f(v):
+                for n in r.in_names:
+                    prob.set_val(r.path + "." + n, v[n])
+                prob.run_model()
+                return {n: np.array(prob.get_val(r.path + "." + n), dtype=float).ravel().copy() for n in r.out_names}
+
+            for wrt in r.in_names:
+                base = np.array(vals[wrt], dtype=float).reshape(r.shapes[wrt])
+                cols = {of: np.zeros((r.size(of), base.size)) for of in r.out_names}
+                for j in range(base.size):
+                    est = []
+                    for h in (1e-4, 5e-5):
+                        hh = h * max(1.0, abs(base.ravel()[j]))
+                        a = base.copy().ravel(); a[j] += hh
+                        b = base.copy().ravel(); b[j] -= hh
+                        vp = dict(vals); vm = dict(vals)
+                        vp[wrt] = a.reshape(base.shape); vm[wrt] = b.reshape(base.shape)
+                        fp, fm = f(vp), f(vm)
+                        est.append({of: (fp[of] - fm[of]) / (2 * hh) for of in r.out_names})
+                    for of in r.out_names:
+                        cols[of][:, j] = (4 * est[1][of] - est[0][of]) / 3.0
+                for of in r.out_names:
+                    J.setdefault((of, wrt), {})["J_fd"] = cols[of]
+            f(vals)
             for key, e in J.items():
-                a, b = e["fd"]
-                e["J_fd"] = (4.0 * b - a) / 3.0  # Richardson
+                if "J_fwd" not in e:
+                    e["J_fwd"] = np.zeros_like(e["J_fd"])
+                if "J_fd" not in e:
+                    e["J_fd"] = np.full_like(e["J_fwd"], np.nan)
     return r, outs, J
 
 
